@@ -6,6 +6,7 @@ import (
 	"errors"
 	"fmt"
 	"io"
+	"math"
 	"reflect"
 	"time"
 	"unicode/utf8"
@@ -249,12 +250,18 @@ func FromGoType(obj interface{}) Object {
 	case int64:
 		return NewInt(obj)
 	case uint:
+		if uint64(obj) > math.MaxInt64 {
+			return TypeErrorf("type error: uint value %d overflows int", obj)
+		}
 		return NewInt(int64(obj))
 	case uint16:
 		return NewInt(int64(obj))
 	case uint32:
 		return NewInt(int64(obj))
 	case uint64:
+		if obj > math.MaxInt64 {
+			return TypeErrorf("type error: uint64 value %d overflows int", obj)
+		}
 		return NewInt(int64(obj))
 	case float32:
 		return NewFloat(float64(obj))
@@ -671,7 +678,11 @@ func (c *UintConverter) To(obj Object) (interface{}, error) {
 }
 
 func (c *UintConverter) From(obj interface{}) (Object, error) {
-	return NewInt(int64(obj.(uint))), nil
+	v := obj.(uint)
+	if uint64(v) > math.MaxInt64 {
+		return nil, errz.TypeErrorf("type error: uint value %d overflows int", v)
+	}
+	return NewInt(int64(v)), nil
 }
 
 // Uint8Converter converts between uint8 and *Int.
@@ -751,7 +762,11 @@ func (c *Uint64Converter) To(obj Object) (interface{}, error) {
 }
 
 func (c *Uint64Converter) From(obj interface{}) (Object, error) {
-	return NewInt(int64(obj.(uint64))), nil
+	v := obj.(uint64)
+	if v > math.MaxInt64 {
+		return nil, errz.TypeErrorf("type error: uint64 value %d overflows int", v)
+	}
+	return NewInt(int64(v)), nil
 }
 
 // Float32Converter converts between float32 and *Float.
